@@ -364,6 +364,9 @@ def locate_checks(X, R, p, truth, aid):
         judge('bounds', g.column_containing_point(pos, bounds=encl), note='(enclosing 4-sided polygon)'); nsub += 1
         if tri_ok:
             judge('bounds', g.column_containing_point(pos, bounds=tri_np), tri_exp, note='(triangle %r)' % (tri,)); nsub += 1
+            # the same polygon handed over as one (N, 2) array instead of a list of points
+            judge('bounds', g.column_containing_point(pos, bounds=np.array(tri)), tri_exp, note='(triangle as a 2-D array %r)' % (tri,)); nsub += 1
+            judge('bounds', g.column_containing_point(pos, bounds=np.array(encl)), note='(enclosing 4-sided polygon as a 2-D array)'); nsub += 1
             R.label('bounds:point-%s-polygon' % ('inside' if geom_ref.contains(p, tri) else 'outside'))
         # non-convex bounds: a U-shaped polygon around the mesh (a ray from a point in one arm crosses its boundary three
         # times) and, on small meshes, the geometry's own boundary polygon (re-entrant for irregular outlines)
@@ -388,6 +391,8 @@ def locate_checks(X, R, p, truth, aid):
             R.label('bounds:nonconvex:point-%s' % ('inside' if inside else 'outside'))
             judge('bounds', g.column_containing_point(pos, bounds=[np.array(v) for v in poly]), exp if inside else None,
                   note='(%s, %d vertices)' % (what, len(poly))); nsub += 1
+            judge('bounds', g.column_containing_point(pos, bounds=np.array(poly)), exp if inside else None,
+                  note='(%s as a 2-D array, %d vertices)' % (what, len(poly))); nsub += 1
     # columns superset
     sup = dict((X.cols[i % X.n].name, X.cols[i % X.n]) for i in aid['subset'])
     if truth is not None: sup[truth.name] = truth
